@@ -17,7 +17,9 @@ import (
 	"strings"
 
 	"github.com/jamespfennell/gtfs"
+	"github.com/jamespfennell/gtfs/extensions/nycttrips"
 	gtfsrt "github.com/jamespfennell/gtfs/proto"
+	"google.golang.org/protobuf/proto"
 )
 
 type assocPair struct {
@@ -403,16 +405,77 @@ func c04HarnessV(nPairs int, extras bool, variant int) Harness {
 	}
 }
 
+// c04UnderFilter: under nycttrips with the stale filter on, a stale unassigned trip update is
+// dropped; a vehicle position - the only statement that V1 serves T2 - stands next to it in every
+// order, with T2's own trip update and a bare vehicle: T2 and V1 must point at each other.
+func c04UnderFilter(c *Ctx) {
+	opts := nyctOptCombos[c.Free("options", 4)]
+	ts := uint64(1700000000)
+	no := false
+	staleTD := &gtfsrt.TripDescriptor{TripId: sp("060000_L..N"), RouteId: sp("L"), StartDate: sp("20231114")}
+	proto.SetExtension(staleTD, gtfsrt.E_NyctTripDescriptor, &gtfsrt.NyctTripDescriptor{TrainId: sp("0L 1000 8AV/RPY"), IsAssigned: &no, Direction: gtfsrt.NyctTripDescriptor_NORTH.Enum()})
+	ents := []*gtfsrt.FeedEntity{
+		{Id: sp("stale"), TripUpdate: &gtfsrt.TripUpdate{Trip: staleTD, StopTimeUpdate: []*gtfsrt.TripUpdate_StopTimeUpdate{{StopId: sp("L01N"), Departure: &gtfsrt.TripUpdate_StopTimeEvent{Time: cp2(int64(ts) - 600)}}}}},
+		{Id: sp("vp"), Vehicle: &gtfsrt.VehiclePosition{Vehicle: &gtfsrt.VehicleDescriptor{Id: sp("V1")}, Trip: &gtfsrt.TripDescriptor{TripId: sp("T2")}, StopId: sp("B1")}},
+		{Id: sp("tu2"), TripUpdate: &gtfsrt.TripUpdate{Trip: &gtfsrt.TripDescriptor{TripId: sp("T2")}, StopTimeUpdate: []*gtfsrt.TripUpdate_StopTimeUpdate{{StopId: sp("B2")}}}},
+		{Id: sp("bare"), Vehicle: &gtfsrt.VehiclePosition{StopId: sp("B3")}},
+	}
+	perm := c.Perm("order", len(ents))
+	m := newFeed(&ts)
+	for _, j := range perm {
+		m.Entity = append(m.Entity, ents[j])
+	}
+	b := marshalFeed(m)
+	desc := "order=" + entityOrder(m) + " opts=" + nyctOptName(opts)
+	c.Input(hash64(string(b)+nyctOptName(opts)), true, func() string { return desc })
+	r, err, ok := parseRT(c, b, &gtfs.ParseRealtimeOptions{Extension: nycttrips.Extension(opts)})
+	if !ok {
+		return
+	}
+	if err != nil {
+		c.Fail("valid-message-rejected", "%v", err)
+		return
+	}
+	c.Steps(len(ents))
+	c.Outcome(dumpRealtime(r, rtDumpOpts{links: true, sortVehicles: true}))
+	var t2 *gtfs.Trip
+	var v1 *gtfs.Vehicle
+	for i := range r.Trips {
+		if r.Trips[i].ID.ID == "T2" {
+			t2 = &r.Trips[i]
+		}
+	}
+	for i := range r.Vehicles {
+		if r.Vehicles[i].ID != nil && r.Vehicles[i].ID.ID == "V1" {
+			v1 = &r.Vehicles[i]
+		}
+	}
+	switch {
+	case t2 == nil:
+		c.Fail("trip-missing", "%s: trip T2 is not in Trips", desc)
+	case v1 == nil:
+		c.Fail("vehicle-missing:under-filter", "%s: vehicle V1 is not in Vehicles", desc)
+	case t2.Vehicle == nil || t2.Vehicle.ID == nil || t2.Vehicle.ID.ID != "V1":
+		c.Fail("trip.Vehicle-nil:under-filter", "%s: T2.Vehicle does not lead to V1 although the vehicle position names T2", desc)
+	case v1.Trip == nil || v1.Trip.ID.ID != "T2":
+		c.Fail("vehicle.Trip-nil:under-filter", "%s: V1.Trip does not lead to T2", desc)
+	}
+	if opts.FilterStaleUnassignedTrips {
+		c.Witness("association_next_to_a_filtered_entity")
+	}
+}
+
 func init() {
 	register(&Check{
 		ID:    "C04",
 		Level: "model_checking",
-		Rule: "full product: 2 pairs optionally with an alert naming the trips of both, optionally sharing one trip_id (start dates differ); 1 pair whose trip descriptor carries every schedule relationship, which may be expressed by ONE entity carrying both kinds, whose vehicle position carries 4 sets of optional fields (current_stop_sequence without current_status, ...) and whose entities may be flagged is_deleted (unset, SCHEDULED, ADDED, UNSCHEDULED, CANCELED, REPLACEMENT, DUPLICATED, DELETED); 1 pair (+ optional unrelated trip, unrelated vehicle, alert mentioning the trip, alert naming two new trips), each optionally preceded in the same process by the parse of a conflicting message about the same ids and 2 pairs; association expressed by {TU, VP, both} x vehicle descriptor {id, label only, none, present but empty} x trip descriptor {trip id, route+direction+start}; all n! entity orders (n<=5); all map rotations at every library range; thorough adds 2 pairs with extras; " +
+		Rule: "a vehicle position that alone associates V1 with T2, next to a stale trip update the nycttrips filter drops, in all 24 orders x 4 option sets; full product: 2 pairs optionally with an alert naming the trips of both, optionally sharing one trip_id (start dates differ); 1 pair whose trip descriptor carries every schedule relationship, which may be expressed by ONE entity carrying both kinds, whose vehicle position carries 4 sets of optional fields (current_stop_sequence without current_status, ...) and whose entities may be flagged is_deleted (unset, SCHEDULED, ADDED, UNSCHEDULED, CANCELED, REPLACEMENT, DUPLICATED, DELETED); 1 pair (+ optional unrelated trip, unrelated vehicle, alert mentioning the trip, alert naming two new trips), each optionally preceded in the same process by the parse of a conflicting message about the same ids and 2 pairs; association expressed by {TU, VP, both} x vehicle descriptor {id, label only, none, present but empty} x trip descriptor {trip id, route+direction+start}; all n! entity orders (n<=5); all map rotations at every library range; thorough adds 2 pairs with extras; " +
 			"non-trivial = every distinct message; oracle = link invariants on the real result",
 		Assumptions: []string{"entries are located by identifier, id-less vehicles by the stop id of their position entity"},
 		Scenarios: func(tier string) []*Scenario {
 			s := []*Scenario{{Name: "one-pair+extras", Bound: -1, Run: c04Harness(1, true)}, {Name: "two-pairs", Bound: -1, Run: c04HarnessV(2, false, 2)},
-				{Name: "one-pair-with-schedule-relationships", Bound: -1, Run: c04HarnessV(1, false, 1)}}
+				{Name: "one-pair-with-schedule-relationships", Bound: -1, Run: c04HarnessV(1, false, 1)},
+				{Name: "association-next-to-a-filtered-entity", Bound: -1, Run: c04UnderFilter}}
 			if tier == "thorough" {
 				s = append(s, &Scenario{Name: "two-pairs+extras", Bound: -1, Run: c04Harness(2, true)}, &Scenario{Name: "three-pairs", Bound: -1, Run: c04Harness(3, false)})
 			}
